@@ -937,7 +937,7 @@ func c05(r *core.Run) {
 			o.Unres("no call of %s with field options found in %s", core.FuncName(sinkFns[0]), mapPkg)
 		}
 	})
-	r.Check("D4/K6/range-boundary-table", "validateNumberRange(fv, nr) returns an error exactly when fv < left, fv == left on an open left end, fv > right, or fv == right on an open right end (evaluated for all 36 combinations of the two flags and the two orderings); nil range accepts", func(o *core.O) {
+	r.Check("D4/K6/range-boundary-table", "validateNumberRange(fv, nr) returns an error exactly when fv < left, fv == left on an open left end, fv > right, or fv == right on an open right end (evaluated for all 36 combinations of the two flags and the two orderings), and for fv = NaN under each of the four bracket combinations (every ordered comparison with NaN is false, so a validator made of rejecting comparisons alone lets NaN through every range=: a value outside its declared range must fail); nil range accepts", func(o *core.O) {
 		var f *ssa.Function
 		for _, g := range mapFuncs {
 			if g.Parent() == nil && len(g.Params) == 2 && g.Signature.Results().Len() == 1 {
@@ -956,7 +956,8 @@ func c05(r *core.Run) {
 		type env struct {
 			isNil  bool
 			li, ri bool
-			cl, cr int // sign of fv-left, fv-right
+			cl, cr int  // sign of fv-left, fv-right
+			nan    bool // fv is NaN: every comparison with it is false, except != which is true
 		}
 		var eval func(v ssa.Value, e env, prev, cur *ssa.BasicBlock) (bool, bool)
 		fieldOf := func(v ssa.Value) string {
@@ -1006,15 +1007,35 @@ func c05(r *core.Run) {
 				if (x.X == ssa.Value(nr) && core.IsNil(x.Y)) || (x.Y == ssa.Value(nr) && core.IsNil(x.X)) {
 					return evalCmp(x.Op, b2i(e.isNil), 1)
 				}
+				if x.X == ssa.Value(fv) && x.Y == ssa.Value(fv) {
+					// fv != fv / fv == fv: the NaN test spelled as a self-comparison
+					switch x.Op {
+					case token.NEQ:
+						return e.nan, true
+					case token.EQL:
+						return !e.nan, true
+					}
+					return false, false
+				}
 				if x.X == ssa.Value(fv) {
 					if s, ok := sign(x.Y, e); ok {
+						if e.nan {
+							return x.Op == token.NEQ, true
+						}
 						return evalCmp(x.Op, int64(s), 0)
 					}
 				}
 				if x.Y == ssa.Value(fv) {
 					if s, ok := sign(x.X, e); ok {
+						if e.nan {
+							return x.Op == token.NEQ, true
+						}
 						return evalCmp(x.Op, 0, int64(s))
 					}
+				}
+			case *ssa.Call:
+				if !x.Call.IsInvoke() && core.CalleeName(x) == "math.IsNaN" && len(x.Call.Args) == 1 && x.Call.Args[0] == ssa.Value(fv) {
+					return e.nan, true
 				}
 			}
 			return false, false
@@ -1063,6 +1084,20 @@ func c05(r *core.Run) {
 							o.Fail(p.Pos(f.Pos()), "%s: leftInclude=%v rightInclude=%v sign(fv-left)=%d sign(fv-right)=%d: returns error=%v, expected %v", core.FuncName(f), li, ri, cl, cr, got, want)
 						}
 					}
+				}
+			}
+		}
+		// NaN lies in no range, whatever the brackets
+		for _, li := range []bool{false, true} {
+			for _, ri := range []bool{false, true} {
+				got, ok := run(env{li: li, ri: ri, nan: true})
+				o.Site(1)
+				if !ok {
+					o.Unres("%s: a branch condition is not a flag test, a NaN test or a comparison of fv with left/right", core.FuncName(f))
+					return
+				}
+				if !got {
+					o.Fail(p.Pos(f.Pos()), "%s: leftInclude=%v rightInclude=%v fv=NaN: returns nil - NaN compares false with both bounds, so it passes every declared range= (a float field with range=[0:1] accepts the form/env/string value \"NaN\")", core.FuncName(f), li, ri)
 				}
 			}
 		}
